@@ -31,8 +31,11 @@ def check_idx_kernel(run, m):
     from facts import walk, peel
     # reads of the series other than by index (`self.titer()`, `self.slice(..)`, ..): their extent is
     # not tied to the output position at all
+    # the series are the enclosing function's view parameters (by local id, not by name)
+    series = {b['local'] for p_ in fn.params for b in _pat_binds(p_)
+              if b['name'] == 'self' or 'Vec1View' in (b.get('ty') or '') or b['name'] == 'other'}
     nonidx = [x for x in walk(cl['ch'][0]) if x.get('k') == 'MethodCall' and
-              peel(x['ch'][0]).get('k') == 'Path' and peel(x['ch'][0]).get('name') in ('self', 'other') and
+              peel(x['ch'][0]).get('k') == 'Path' and peel(x['ch'][0]).get('local') in series and
               x['method'] not in ('uget', 'len', 'get', 'vget', 'uvget')]
     for x in nonidx:
         run.ob('IDX.kernel', fn, 'non-indexed read %s' % S._clean(src(x))[:60], False, loc(x),
